@@ -63,9 +63,20 @@ theorem FInv.init : FInv State.init := by
   constructor <;> simp [State.init]
 
 theorem FInv.step {c : Cfg} {s s' : State} {l : Lbl} (hf : FInv s) (h : step c s l = some s') : FInv s' := by
+  by_cases hstart : l = .start
+  · subst hstart
+    simp only [GC.step, stepWith] at h
+    split at h
+    · injection h with h; subst h; exact ⟨by simp, by simp⟩
+    · injection h with h; subst h; exact hf
+  by_cases hjoin : l = .stopJoin
+  · subst hjoin
+    simp only [GC.step, stepWith] at h
+    split at h <;> try contradiction
+    injection h with h; subst h; exact ⟨by simp, by simp⟩
   cases hc : l.isColl with
   | false =>
-    obtain ⟨f1, _, _, _, f5, _⟩ := frame_nonColl hc h
+    obtain ⟨f1, _, _, _, f5, _⟩ := frame_nonColl hc hstart hjoin h
     refine ⟨?_, ?_⟩
     · -- only enterPin / leave touch floor, must, slots
       cases l with
@@ -102,6 +113,8 @@ theorem FInv.step {c : Cfg} {s s' : State} {l : Lbl} (hf : FInv s) (h : step c s
         · subst hii; simp at hp
         · rw [upd_other _ _ hii] at hp
           exact hf.floorLe hsc i hi p a hp
+      | start => exact absurd rfl hstart
+      | stopJoin => exact absurd rfl hjoin
       | _ =>
         first
         | (cases hc; done)
@@ -171,12 +184,13 @@ theorem lim1_pos_e {c : Cfg} (hc : 1 ≤ c.cap) (p : Nat) : 1 ≤ c.lim1 p := by
   simp only [Cfg.lim1, Cfg.batch, Cfg.ringRoom, h2]
   omega
 
-/-- until it has finished, the collector thread always has an enabled action -/
-theorem collector_enabled {c : Cfg} {s : State} (hcap : 1 ≤ c.cap) (h : Reach c s) (hnd : s.cpc ≠ .done) :
+/-- while it exists and has not finished, the collector thread always has an enabled action -/
+theorem collector_enabled {c : Cfg} {s : State} (hcap : 1 ≤ c.cap) (h : Reach c s) (hnd : collActive s.cpc = true) :
     ∃ l, l.isColl = true ∧ (step c s l).isSome = true := by
   have hf := reach_finv h
   cases hpc : s.cpc with
-  | done => exact absurd hpc hnd
+  | done => rw [hpc] at hnd; cases hnd
+  | off => rw [hpc] at hnd; cases hnd
   | top =>
     by_cases hl : loopCond s = true
     · by_cases hcc : consumeCond s = true
